@@ -44,6 +44,7 @@ DEFAULT_PROFILE = {
     "value_kinds": ["default"],
     "p_any": 0.25,           # probability of from_.any() declarations
     "p_reuse_ref": 0.15,     # the same callback referenced in a second group of the same owner
+    "p_sigdeco": 0.0,        # callbacks wrapped by a signature-preserving decorator (__signature__)
 }
 
 
@@ -193,6 +194,8 @@ def gen_spec(rng, profile=None, uid=None):
         if P["yields"] and rng.random() < 0.6:
             script["yields"] = rng.randint(1, P["yields"])
         cbs[cid] = {"name": name, "provider": provider, "kind": kind, "async": is_async(), "script": script, **extra}
+        if kind in ("method", "func") and P["p_sigdeco"] and rng.random() < P["p_sigdeco"]:
+            cbs[cid]["sigdeco"] = True
         return cid
 
     # convention callbacks
